@@ -39,6 +39,14 @@ fn main() {
             let max: u64 = args[6].parse().unwrap();
             engine::worker_main(&*prop, tier, w, nw, from, max)
         }
+        "--print-case" => {
+            // vcheck --print-case <ID> <tier> <idx>: the generated case of that index (with the current VERIF_SEED)
+            let prop = vharness::props::by_id(&args[1]).expect("property");
+            let tier = Tier::parse(&args[2]).expect("tier");
+            let idx: u64 = args[3].parse().unwrap();
+            println!("{}", engine::print_case(&*prop, tier, idx));
+            0
+        }
         "--run-case" => {
             let prop = vharness::props::by_id(&args[1]).expect("property");
             let repeats: u32 = args[2].parse().unwrap();
